@@ -142,6 +142,16 @@ CLAIMS = {
    note="Trusted: TLC, Fix.tla, IEEE math.sin/cos/sqrt for the witnesses (constrained by the identities checked in the spec).",
    technique="TLA+ polynomial identities over verified transcendental witnesses; bisection model-checked; trace validation",
    ref="5/C11"),
+ "C18": dict(
+   text="Trace_Ellipsoid.tla states the meridian-ellipse identity, height term, parallel radius, curvature end values and "
+        "monotonicity, linear speed, and the distance laws (symmetry, zero, equator, meridian integral, great-circle bound) and "
+        "the parallax bound as exact fixed-point relations over the values the real Earth/Ellipsoid objects return (with "
+        "verified sine/cosine witnesses of the latitude); TLC validates latitude-ordered traces per ellipsoid, objects reached "
+        "via constructor and via set().",
+   note="Trusted: TLC, Fix.tla, math.sin/cos witnesses (norm verified), harness Simpson integral of the library's own rm and "
+        "haversine central angle (harness-oracle clauses, compared by the spec).",
+   technique="TLA+ trace specification: polynomial ellipse identities and action property over latitude-ordered events",
+   ref="5/C18"),
 }
 
 PENDING_REASON = "check not built yet in this round (specification module planned in DESIGN.md section 5); not claimed until its trace specification validates the unchanged tree"
